@@ -428,16 +428,24 @@ class MergeRules(MergeBase):
         self.dom = {}
 
     def plan(self, case):
-        return [{"master": "m", "sources": [["s", i] for i in range(len(case["s"]))], "diff": False, "track": False}]
+        srcs = [["s", i] for i in range(len(case["s"]))]
+        return [{"master": "m", "sources": srcs, "diff": False, "track": False},
+                # the "working = master.fetch()" idiom: a fetch result (templates flagged) as the master; model only
+                {"master": "m", "sources": [], "diff": False, "track": False},
+                {"master": ["r", 1], "sources": srcs, "diff": False, "track": False, "lenient_oracle": True}]
 
     def extra(self, case, objs, results, obs):
-        if results and results[0] is not None:
+        def ext(r):
+            if r is None:
+                return ["none"]
             try:
-                return ["ok", dump_value(self.fp, results[0].extract())]
+                return ["ok", dump_value(self.fp, r.extract())]
             except BaseException as e:  # noqa
                 fc.reraise_control(e)
                 return ["err", exc_class(e)]
-        return ["none"]
+        first = ext(results[0]) if results else ["none"]
+        # the same sources merged into master.fetch() instead of the master (third step)
+        return first + [ext(results[2]) if len(results) > 2 else ["none"]]
 
     def corpus(self):
         mk = lambda m, s: {"m": m, "s": s, "env": [], "diff": 0, "kind": "plain"}  # noqa
@@ -486,9 +494,9 @@ class MergeRules(MergeBase):
         return self._master_domain(case["m"]) == ""
 
     def prop(self, case, obs):
-        if not isinstance(obs, list) or len(obs) != 2 or not isinstance(obs[0], list):
+        if not isinstance(obs, list) or len(obs) < 2 or not isinstance(obs[0], list):
             return None
-        o0, x = obs
+        o0, x = obs[0], obs[-1]
         got = x[1]
         fp = self.fp
         try:
@@ -510,9 +518,15 @@ class MergeRules(MergeBase):
             return None
         if got[0] == "err" and got[1] not in ("RuntimeError", "Sorry"):
             return None
-        have = ["err"] if (o0[0] == "err" or got[0] == "err") else got
+        have = ["err"] if (o0[0] == "err" or got[0] == "err") else got[:2]
         if have != want:
             return "REF: extraction gives %s, the merge rules give %s" % (json.dumps(have)[:400], json.dumps(want)[:400])
+        # master.fetch() used as the master: the same merge rules (masters with unique sibling names)
+        if len(obs) >= 4 and len(got) > 2 and not self._dup_master(case["m"]) and want != ["err"]:
+            o2, g2 = obs[2], got[2]
+            if isinstance(o2, list) and o2[0] == "ok" and g2[0] == "ok" and g2[:2] != want:
+                return "REF (master = master.fetch()): extraction gives %s, the merge rules give %s" % (
+                    json.dumps(g2)[:400], json.dumps(want)[:400])
         return None
 
     def tag(self, case, o):
